@@ -22,6 +22,7 @@ def run(repo, report, tier):
     report.guard("C17.R1", "builder", builder_rules.c17_r1_writer_first, repo, report, tier)
     report.guard("C17.R2", "get_info_records", r2_partition, repo, report)
     report.guard("C17.R3", "coordinate frame", r3_frame, repo, report)
+    report.guard("C17.R3", "paired --revcomp", r3_paired_swap, repo, report)
     report.assume("a match yields at least one info record (LinkedMatch's constructor asserts that a part is present)")
     report.notes.append("Not decided: agreement of the printed error count with the aligner (C01).")
 
@@ -207,3 +208,26 @@ def r3_frame(repo, report):
         report.ob("C17.R3", f"{cname} removes a prefix before adapter matching", ok, facts={"prefix_removing_returns": prefix, "writer_slices": "info.original_read" if uses_original else "the processed read", "writer_compensation": compens},
                   expected="the info writer slices the record the match coordinates refer to", loc=repo.loc(call), fact_key="prefix-before-match",
                   why="" if ok else f"{cname} returns {prefix[0]} before adapter trimming, but InfoFileWriter applies the match coordinates to info.original_read (the read before any modification): columns 5-7 show the wrong bases")
+
+
+def r3_paired_swap(repo, report):
+    """Paired --revcomp exchanges R1 and R2.  The info writer slices info.original_read (reverse-complemented when
+    info.is_rc): after a swap the record in slot 1 is the former R2, so info1.original_read must be exchanged too (or the
+    writer must take the swap into account) - and nothing is reverse-complemented in a swap."""
+    from . import c16
+
+    c, fn = repo.need_method("PairedReverseComplementer", "__call__")
+    ps = params(fn)
+    env = {"self": Obj("self", nonnull=True), ps[1]: Obj("R1", nonnull=True), ps[2]: Obj("R2", nonnull=True), ps[3]: Obj("I1", nonnull=True), ps[4]: Obj("I2", nonnull=True)}
+    rows = explore(repo, strip_docstring(fn.body), env, call_hook=c16._hook, inline=False, max_rows=40000)
+    swapped = [r for r in rows if any(e[0] == "store" and e[1] == "I1.is_rc" and e[2] == "True" for e in r.effects)]
+    exchanged = [r for r in swapped if any(e[0] == "store" and e[1] == "I1.original_read" for e in r.effects) and any(e[0] == "store" and e[1] == "I2.original_read" for e in r.effects)]
+    c2, wf = repo.need_method("InfoFileWriter", "__call__")
+    I = params(wf)[2]
+    writer_uses_original = any(isinstance(n, ast.Attribute) and n.attr == "original_read" for n in ast.walk(wf))
+    writer_flips = any(isinstance(x, ast.Call) and isinstance(x.func, ast.Attribute) and x.func.attr == "reverse_complement" for x in ast.walk(wf))
+    ok = bool(swapped) and (len(exchanged) == len(swapped) or not writer_uses_original)
+    report.ob("C17.R3", "PairedReverseComplementer swaps the reads but not info.original_read", ok,
+              facts={"swapping_paths": len(swapped), "paths_that_exchange_original_read": len(exchanged), "writer_slices": "info.original_read" if writer_uses_original else "the processed read", "writer_reverse_complements_when_is_rc": writer_flips},
+              expected="after a swap info1/info2.original_read are the swapped input records (and a swapped pair is not reverse-complemented by the writer)", loc=repo.loc(fn), fact_key="paired-swap-original-read", cases=len(swapped),
+              why="" if ok else "the info rows of a swapped pair are cut from the reverse complement of the ORIGINAL R1 although the record in slot 1 is the former R2: -g ^AACC -G ^GGCC --revcomp on R1 GGCCTTTTTCCCCC / R2 AACCAAAAAGGGGG writes AAAAAGGGGG but the info row shows GGGG + GAAAAAGGCC")
